@@ -2,25 +2,27 @@
 SPECIFICATION Spec
 CONSTANTS
   NSlot = 3
-  NMock = 2
+  NMock = 1
   NSeq = 1
   NObj = 1
   NMon = 1
   NTr = 1
   AsIs_D1 = FALSE
   AsIs_D4 = FALSE
-  MShapes = {2, 5}
+  MShapes = {3}
   MArgs = {0, 1}
-  MTermIds = {1, 2}
-  MBoundIds = {1, 2, 3, 4}
+  MTermIds = {1, 2, 3}
+  MBoundIds = {1, 2}
   MFns = {1}
-  MaxCreate = 2
+  MaxCreate = 3
   MaxN = 3
-  UseMove = TRUE
-  UseDestroyMock = TRUE
+  UseMove = FALSE
+  UseDestroyMock = FALSE
   UseDestroySeq = FALSE
   UseMonitors = FALSE
-  UseWith = FALSE
+  UseWith = TRUE
+  UseTracers = FALSE
+  UseReporters = FALSE
 CONSTRAINT Bounded
 INVARIANT Inv_All
 CHECK_DEADLOCK FALSE
